@@ -81,7 +81,7 @@ for rf in sorted(glob.glob(f"{res_dir}/*.txt")):
     meta = {
         "property": pid,
         "source": "independent sub-agent given only the property text and a scratch worktree of /repo",
-        "base_commit": {"round1": "88e0012", "r2": "f1835f9", "r3": "3904c34"}.get(round_tag, "c990c08"),
+        "base_commit": {"round1": "88e0012", "r2": "f1835f9", "r3": "3904c34", "r4": "c990c08"}.get(round_tag, "9160c09"),
         "ported": ported,
         "what_and_what_it_needs_to_manifest": sec.strip()[:2500] or "see the agent's notes (not parsed)",
         "confirmation": {
